@@ -19,4 +19,40 @@ PROPS = {
             {"name": "TestC01Enum", "rapid": False},
         ],
     },
+    "C02": {
+        "level": "exploration",
+        "technique": "property-based testing (rapid) of header.VerifyRange against a naive reference loop written from the statement",
+        "level_text": "Generated-input search with a reference-loop oracle: sequences built from a canonical chain segment (non-adjacent first element inside/outside the trust span, lengths 0..200) with up to 3 drawn mutations (gap, dup, swap, nil, forged, forked, wrong chain, time regress, future, below-trusted); the result must be pointer-identical to input[:k] and err==nil iff k==len>0.",
+        "level_note": "header.Verify is used as the step predicate on purpose (its own correctness is C01's job); trusts the vh header model.",
+        "rule": "rapid draws trusted height/span, first-element gap, length and 0..3 mutations at drawn positions. Non-trivial = first failure strictly inside the range (0<k<len) or an accepted non-adjacent first element. Distinct = distinct (len, k, mutation kinds, gap, trusted span).",
+        "assumptions": ["vh.Header type-level Verify (lineage, hash link, trust span) stands in for a real header type"],
+        "tests": [{"name": "TestC02", "quick": 20000, "thorough": 1000000}],
+    },
+    "C04": {
+        "level": "exploration",
+        "technique": "stateful property-based testing (rapid-generated operation histories) of store.Store against a set+anchor-run reference model, in a synctest bubble",
+        "level_text": "Model-based stateful testing: histories of 5-40 operations (appends next/above a gap/filling/below tail/repeats, ascending and descending batches, Sync, settle, prefix/suffix/whole DeleteRange, restart by new Store or Stop+Start, range probes) over batch sizes 1..64, cache sizes 1..2048 and both datastore flavours; after every step every observable (Head, Tail, Height, GetByHeight, Get, Has, HasAt, GetRange, GetRangeByHeight) is compared with the model.",
+        "level_note": "First append into an empty store is a contiguous ascending run (ensureInit's precondition, counted as excluded otherwise); quiescence is judged by synctest.Wait, never by sleeping; in-memory datastores (plain and context-aware with atomic batches + snapshot read transactions).",
+        "rule": "rapid draws a configuration and a history of relative operations resolved against the model at execution time. Non-trivial = a gap was created and later filled, or a restart happened with unflushed headers, or batch size 1 / cache size 2. Distinct = distinct scenario JSON.",
+        "assumptions": ["headers come from one canonical chain", "first batch into an empty store is contiguous ascending"],
+        "tests": [{"name": "TestC04", "quick": 1500, "thorough": 80000, "gomaxprocs": 1}],
+    },
+    "C08": {
+        "level": "exploration",
+        "technique": "stateful property-based testing (rapid) of Store.DeleteRange against the store model: boundary (from,to) pairs, unflushed stores, part-way failures and continuations",
+        "level_text": "Model-based testing of DeleteRange: generated store states (flushed/unflushed mix, orphans above a gap, sequential and parallel deletion path), (from,to) drawn from boundary selectors {0,T-1,T,T+1,T+k,H+1-k,H,H+1,H+2,MaxUint64}, handler errors/panics and virtual-time deadlines for part-way failures, then a continuation of appends, syncs and restarts. Oracle: invalid => error and no observable change incl. the raw key set; nil => range unreadable and its hash and height keys gone now and after the continuation; part-way failure => outside untouched, pointers resolve, retry completes.",
+        "level_note": "Datastore write faults are not injected here (the quantifier has no fault sequences; C06 owns them). After a head-side part-way failure nothing further is demanded (statement). Parallel-delete threshold lowered to 2 through the verif hook in 1/4 of the cases.",
+        "rule": "Non-trivial = a valid range over a store with unflushed headers, or followed by append+restart, or failed part-way. Distinct = distinct scenario JSON.",
+        "assumptions": ["headers come from one canonical chain"],
+        "tests": [{"name": "TestC08", "quick": 2000, "thorough": 100000, "gomaxprocs": 1, "env": {"GODEBUG": "asyncpreemptoff=1"}}],
+    },
+    "C14": {
+        "level": "fault_enumeration",
+        "technique": "stateful property-based testing (rapid) with handler-fault injection at every position of the deleted range; handler log compared with what actually disappeared",
+        "level_text": "Generated deletions (prefix, suffix, whole; flushed and unflushed; sequential and parallel path) with 1-4 handlers failing by error, panic or virtual-time deadline at a drawn height of the range; the handlers record (attempt, height, readable by height?, by hash?). Oracle: every height that became unreadable had each handler called exactly once while readable; a failing handler's header stays; DeleteRange returns the error and never panics; a tail-side retry calls the handlers again and completes.",
+        "level_note": "Handler failure positions are drawn (all offsets 0..12 of the range), not exhaustively enumerated per range; datastore faults excluded (C06).",
+        "rule": "Non-trivial = valid range with >=1 handler and (failure strictly inside the range, or whole-store deletion, or unflushed headers in the store). Distinct = distinct scenario JSON.",
+        "assumptions": ["headers come from one canonical chain"],
+        "tests": [{"name": "TestC14", "quick": 2000, "thorough": 100000, "gomaxprocs": 1, "env": {"GODEBUG": "asyncpreemptoff=1"}}],
+    },
 }
